@@ -137,6 +137,38 @@ pub fn named_trees(n: usize, d: usize, pool: &[&str]) -> Vec<Value> {
     out
 }
 
+/// Like run_structures with all selections, but every selection also names the always-visible root
+/// claims (iss: true, exp: false): "selections naming visible claims" must change nothing.
+pub fn run_structures_named_visible(rep: &Report, name: &str, trees: &[Value], strategies: &(dyn Fn(&Value) -> Vec<Strat> + Sync), cfgs: &(dyn Fn(usize) -> Vec<Cfg> + Sync), checks: Checks) {
+    let mut items: Vec<(usize, Strat)> = vec![];
+    for (ti, t) in trees.iter().enumerate() {
+        for s in strategies(t) {
+            items.push((ti, s));
+        }
+    }
+    let before = rep.evals();
+    let sels: Vec<Vec<Map<String, Value>>> = trees
+        .iter()
+        .map(|t| {
+            gen::selections(t)
+                .into_iter()
+                .map(|mut m| {
+                    m.insert("iss".into(), json!(true));
+                    m.insert("exp".into(), json!(false));
+                    m
+                })
+                .collect()
+        })
+        .collect();
+    par_for(rep, items.len(), |i, l| {
+        let (ti, strat) = &items[i];
+        for cfg in cfgs(i) {
+            pipeline::run_cred(&trees[*ti], strat, &cfg, &sels[*ti], checks, &rep.prop, l);
+        }
+    });
+    rep.scope_done(json!({"scope": name, "trees": trees.len(), "tree_x_strategy": items.len(), "evaluations": rep.evals() - before}));
+}
+
 pub fn rotating_cfg(seed: i64) -> impl Fn(usize) -> Vec<Cfg> + Sync {
     let all = Cfg::all();
     move |i| vec![all[(i as i64 + seed).rem_euclid(all.len() as i64) as usize]]
